@@ -323,9 +323,12 @@ func execRun(r *Run, dir string) {
 	var so, se bytes.Buffer
 	cmd.Stdout, cmd.Stderr = &so, &se
 	t0 := time.Now()
-	limit := 120 * time.Second
+	limit := 240 * time.Second
 	if r.Race {
-		limit = 900 * time.Second
+		limit = 1800 * time.Second
+	}
+	if r.Kind == "race-repo" {
+		limit = 3 * time.Hour
 	}
 	if err := cmd.Start(); err != nil {
 		r.Exit = -1
